@@ -448,8 +448,9 @@ class Unit:
     def replace_in(self, fnref, name, pattern, repl, expect=1):
         s, p, bo, bc = self._fn_span(fnref)
         seg, n = re.subn(pattern, repl, self.text[bo:bc + 1], flags=re.S)
-        if n != expect:
-            raise ExtractError('unit %s: rule %s in %s matched %d times, expected %d' % (self.name, name, fnref, n, expect))
+        lo, hi = (expect, expect) if isinstance(expect, int) else expect
+        if not (lo <= n <= hi):
+            raise ExtractError('unit %s: rule %s in %s matched %d times, expected %s' % (self.name, name, fnref, n, expect))
         self.text = self.text[:bo] + seg + self.text[bc + 1:]
         self.rule_hits.append((name + '@' + self.fnkey(fnref), n))
 
